@@ -45,6 +45,9 @@ class Construction:
       except:
         break
       first_tag = i
+    # the tags were read from the last one backwards: restore their order
+    for k in reversed(list(self._data.keys())):
+      self._data[k] = self._data.pop(k)
     self._delayed_initialize_positional_fields(strings, first_tag)
 
   def _delayed_initialize_positional_fields(self, strings, n_positional_fields):
